@@ -18,7 +18,7 @@ use vx_core::util::panic_class;
 use vx_core::{catch, Ctx, Report};
 
 use crate::c12::{query_cap, TierCfg, HORIZON, MAX_ITER};
-use crate::exact::{self, ulp64, Exact, Mat, EPS_P};
+use crate::exact::{self, ulp64, Exact, Mat};
 
 #[derive(Clone, Debug)]
 pub struct Step {
@@ -59,12 +59,12 @@ fn clauses(ex: &Exact, p: f64, t: f64, d: f64) -> Vec<(&'static str, String)> {
         return v;
     }
     let above = ex.tail_ge(t + d);
-    if above > p + EPS_P {
+    if above > p + exact::eps_rel(p) {
         v.push(("P(S >= t+d) exceeds p", format!("p = {:e}: threshold t = {} (d = {:e}) but exact P(S >= t+d) = {:e} > p", p, t, d, above)));
     }
     if let Some(u) = ex.largest_below(t - d) {
         let below = ex.tail_ge(u - d);
-        if below < p - EPS_P {
+        if below < p - exact::eps_rel(p) {
             v.push((
                 "P(S >= u-d) below p (threshold too high)",
                 format!("p = {:e}: threshold t = {} (d = {:e}); largest attainable score below t-d is u = {} and exact P(S >= u-d) = {:e} < p", p, t, d, u, below),
@@ -171,7 +171,7 @@ pub fn queries(ex: &Exact, cap: usize) -> Vec<(f64, &'static str)> {
             q.push(((t * ex.tail[i + 1]).sqrt(), "geometric midpoint of adjacent tail probabilities"));
         }
     }
-    for p in [1e-9, 1e-6, 0.5, 0.999] {
+    for p in [1e-17, 1e-16, 2.2e-16, 1e-15, 1e-12, 1e-9, 1e-6, 0.5, 0.999] {
         q.push((p, "fixed"));
     }
     q.retain(|&(p, _)| p > 0.0 && p < 1.0);
@@ -202,7 +202,7 @@ pub fn run(ctx: &mut Ctx, rep: &mut Report) {
     let win = |m: usize| cfg.windows(m);
     let entries = exact::menu(&cfg.widths, &win, &cfg.pseudos);
     let grid = format!(
-        "queries per matrix: p = every attainable tail probability P(S >= a) (at most {} evenly ranked ones), each x(1-1e-7) and x(1+1e-7), geometric midpoints of adjacent ones, 1e-9, 1e-6, .5, .999, restricted to 0 < p < 1; \
+        "queries per matrix: p = every attainable tail probability P(S >= a) (at most {} evenly ranked ones), each x(1-1e-7) and x(1+1e-7), geometric midpoints of adjacent ones, 1e-17, 1e-16, 2.2e-16, 1e-15, 1e-12, 1e-9, 1e-6, .5, .999 (below machine epsilon: attainable under the skewed background), restricted to 0 < p < 1; \
          every refinement step of approximate_score with g >= 1e-9 and the final score(); oracle: brute-force tail over all K'^M words, d = (M+2)g, 1e-6 on probabilities; \
          one evaluation = one (matrix, background, p, step) check; non-trivial = smallest attainable tail < p < total mass",
         cap
